@@ -9,6 +9,8 @@ NN   non-narrowing: the value stored into cellWidth_[i] is provably >= the old w
 RM   the list of congested regions scanned for each cell is only ever grown or permuted (push/emplace, sort) after it is
      filled: erase / unique / remove / resize / pop_back on it drops regions a cell may intersect
 DS   a cached result kept by a const function on the expansion path is invalidated by every writer of what it reads
+CY   expandCellsToDensity: the stored width depends on a local that lives across the iterations of the cell loop and is updated in
+     it (the rounding carry): necessary for "within one cell height of target x available area"
 G16  computeCellExpansion is const (writes nothing); per cell exactly one factor is pushed; on the fixed branch it is the
      literal 1; on the other branch it is a running maximum started at 1
 """
@@ -28,7 +30,7 @@ EXPLANATION = (
     "replaced by max(itself, e): so the factor is >= 1, equals 1 when nothing intersects, and is the largest intersecting factor "
     "provided the region scan is complete (the scan's completeness is recorded, not decided, when it is not a plain range-for).")
 
-DECLINED = ["all density / rounding arithmetic (utilisation caps, carry of rounding error)",
+DECLINED = ["all density / rounding arithmetic (utilisation caps; of the rounding carry only its existence across iterations is decided, rule CY)",
             "completeness of a region scan that is not a plain loop over the whole map (e.g. a binary search)"]
 
 
@@ -38,6 +40,7 @@ def run(ctx, rep, tier):
     rep.rule("G15", "cellWidth_ writes edge-dominated by the movable test on the same index", 2)
     rep.rule("SK", "binary searches over the congestion regions use the key the regions are sorted by", 1)
     rep.rule("NN", "no movable cell is made narrower: stored width >= old width, proved from the dominating guards", 2)
+    rep.rule("CY", "expandCellsToDensity: the area lost by rounding a width is carried from cell to cell", 1)
     rep.rule("PV", "the available area is computed on the obstruction-free rows (computeRows), not on the raw rows", 1)
     rep.rule("RM", "the scanned region list is only grown or permuted, never pruned", 1)
     rep.rule("DS", "derived state on the expansion path is invalidated by every writer of its inputs", 1)
@@ -85,6 +88,8 @@ def run(ctx, rep, tier):
     # ---- NN ----
     for q in ("Circuit::expandCellsToDensity", "Circuit::expandCellsByFactor"):
         check_non_narrowing(ctx, rep, prog.func1(CQ + q))
+    # ---- CY ----
+    check_rounding_carry(ctx, rep, prog.func1(CQ + "Circuit::expandCellsToDensity"))
     # ---- DS ----
     from .common import check_derived_state
     scope = set()
@@ -591,8 +596,189 @@ def _as_fraction(c):
     return lit_value(c)
 
 
+LOOPS = ("ForStmt", "CXXForRangeStmt", "WhileStmt", "DoStmt")
+
+
+def _var_ids(node):
+    out = set()
+    for y in walk(node):
+        if y.get("kind") == "DeclRefExpr":
+            d = y.get("referencedDecl") or {}
+            if d.get("kind") in ("VarDecl", "ParmVarDecl"):
+                out.add(d.get("id"))
+    return out
+
+
+def check_rounding_carry(ctx, rep, f):
+    """"Within one cell height of target x available area": each width is a real number rounded to an integer, so the loss of a cell
+    (less than one column of its height) has to be handed on to the next cells; with per-cell rounding the losses add up to the sum of the
+    heights. Structural necessary condition: the stored width depends (by data or control) on a local that lives across the iterations of
+    the cell loop, is updated inside it, and is not reset at the top of every iteration."""
+    width = CQ + "Circuit::cellWidth_"
+    writes = _assign_nodes(f, lambda lc: lc[0] == "index" and lc[1][0] == "field" and lc[1][1] == width)
+    if not writes:
+        rep.unknown("CY", f.decl, f, "width write", "no element assignment to cellWidth_ found (shape changed)")
+        return
+    all_loops = [x for x in walk(f.body) if x.get("kind") in LOOPS]
+    for x, lc, op, rc in writes:
+        outer = [l for l in all_loops if any(y is x for y in walk(l))]
+        if not outer:
+            rep.unknown("CY", x, f, "width write outside any loop", "shape changed")
+            continue
+        L = outer[0]
+        inside = {id(y) for y in walk(L)}
+        parent = {}
+        for y in walk(L):
+            for c in children(y):
+                parent[id(c)] = y
+        decl_inside = {y.get("id") for y in walk(L) if y.get("kind") == "VarDecl"}
+        # definitions of locals inside the loop: (var id, defining AST, node)
+        defs = {}
+        for y in walk(L):
+            k = y.get("kind")
+            if k == "VarDecl" and children(y):
+                defs.setdefault(y.get("id"), []).append((y, children(y)[-1], False))
+            elif k in ("BinaryOperator", "CompoundAssignOperator") and (y.get("opcode") == "=" or k == "CompoundAssignOperator"):
+                l, r = children(y)
+                c = canon(l, refs=False)
+                if c[0] == "var":
+                    defs.setdefault(c[1], []).append((y, r, k == "CompoundAssignOperator"))
+            elif k == "UnaryOperator" and y.get("opcode") in ("++", "--"):
+                c = canon(children(y)[0], refs=False)
+                if c[0] == "var":
+                    defs.setdefault(c[1], []).append((y, y, True))
+        rhs_node = children(x)[-1]
+        closure, work, exprs = set(), list(_var_ids(rhs_node)), [rhs_node]
+        while work:
+            v = work.pop()
+            if v in closure:
+                continue
+            closure.add(v)
+            for y, r, _c in defs.get(v, []):
+                exprs.append(r)
+                new = set(_var_ids(r))
+                a = parent.get(id(y))
+                while a is not None and a is not L:
+                    if a.get("kind") in ("IfStmt", "WhileStmt", "ForStmt", "DoStmt", "ConditionalOperator"):
+                        cs = children(a)
+                        cond = cs[0] if a.get("kind") in ("IfStmt", "WhileStmt", "ConditionalOperator") else (cs[-1] if a.get("kind") == "DoStmt" else (cs[2] if len(cs) > 2 else None))
+                        if cond is not None:
+                            new |= _var_ids(cond)
+                            exprs.append(cond)
+                    a = parent.get(id(a))
+                work.extend(new - closure)
+        rounding = [y for e in exprs for y in walk(e) if y.get("castKind") == "FloatingToIntegral" or
+                    (y.get("kind") == "CallExpr" and callee_info(y)["name"] in ("round", "lround", "llround", "floor", "ceil", "trunc", "lrint", "nearbyint", "rint"))]
+        if not rounding:
+            rep.unknown("CY", x, f, "stored width %s" % pretty(rc)[:40], "no conversion from floating point on its definition chain: the rounding step was not recognised")
+            continue
+        g = cfg_of(f)
+        carried, resets = [], []
+        for v in sorted(closure):
+            if v in decl_inside:
+                continue
+            d = f.unit.by_id.get(v)
+            if d is None or d.get("kind") != "VarDecl":
+                continue
+            ds = defs.get(v, [])
+            if not ds:
+                continue
+            plain = [y for y, r, comp in ds if not comp and v not in _var_ids(r)]
+            reads = [y for y in walk(L) if y.get("kind") == "DeclRefExpr" and (y.get("referencedDecl") or {}).get("id") == v
+                     and not any(parent.get(id(y)) is a and children(a)[0] is y for a, _r, comp in ds if not comp)]
+            reset = False
+            for a in plain:
+                an = g.node_for(a)
+                rn = [g.node_for(r) for r in reads]
+                if an is not None and rn and all(q is None or q is an or g.dominates(an, q) for q in rn):
+                    reset = True
+            (resets if reset else carried).append(d.get("name"))
+        # the carry is brought back below one column *after* the current cell's loss has been added: an addition that can reach the end
+        # of the iteration without passing the handing-out loop leaves up to two columns pending, and the last cells' share is lost
+        late = []
+        for v in sorted(closure):
+            d = f.unit.by_id.get(v)
+            if v in decl_inside or d is None or d.get("name") not in carried:
+                continue
+            whiles = [y for y in walk(L) if y.get("kind") == "WhileStmt" and v in _var_ids(children(y)[0]) and
+                      any(z.get("kind") == "CompoundAssignOperator" and z.get("opcode") == "-=" and canon(children(z)[0], refs=False)[:2] == ("var", v) for z in walk(children(y)[-1]))]
+            if not whiles:
+                continue
+            wn = [g.node_for(children(y)[0]) for y in whiles]
+            wn = [n_ for n_ in wn if n_ is not None]
+            linfo = for_loop_info(L) if L.get("kind") == "ForStmt" else None
+            endn = g.node_for(linfo["inc"]) if linfo and linfo.get("inc") is not None else None
+            if not wn or endn is None:
+                continue
+            for y, r, comp in defs.get(v, []):
+                if not (comp and y.get("opcode") == "+=") or any(any(z is y for z in walk(w_)) for w_ in whiles):
+                    continue
+                an = g.node_for(y)
+                if an is not None and endn.idx in g.reachable_from([an], avoid=wn):
+                    late.append((y, d.get("name")))
+        # the carry is an *area*: it is compared with and reduced by the cell's height (one column of it), so what is added to it is that same
+        # height times the lost fraction of a column. Another factor (the width) changes the unit of the carry.
+        unit = []
+        for v in sorted(closure):
+            d = f.unit.by_id.get(v)
+            if v in decl_inside or d is None or d.get("name") not in carried:
+                continue
+            thr = set()
+            for y in walk(L):
+                if y.get("kind") == "WhileStmt" and v in _var_ids(children(y)[0]):
+                    c_ = canon(children(y)[0])
+                    if c_[0] == "bin" and c_[1] in (">=", ">") and c_[2][:2] == ("var", v):
+                        thr.add(c_[3])
+            if len(thr) != 1:
+                continue
+            t_ = list(thr)[0]
+            for y, r, comp in defs.get(v, []):
+                if not (comp and y.get("opcode") == "+="):
+                    continue
+                rc_ = canon(r)
+                if rc_[0] == "bin" and rc_[1] == "*":
+                    facs = [rc_[2], rc_[3]]
+                    plain = [t for t in facs if t[0] == "var"]
+                    if plain and t_ not in facs and t_[0] == "var":
+                        unit.append((y, d.get("name"), pretty(plain[0]), pretty(t_)))
+        if unit:
+            y, nm, got, want = unit[0]
+            rep.violation("CY", y, f, "%s is increased by %s x (lost fraction) but handed out in units of %s" % (nm, got, want),
+                          "the carry counts area in columns of height %s (it is compared with and reduced by %s): the lost fraction of a column is worth %s of area, "
+                          "not %s - cells wider than high over-credit the carry and the movable area overshoots the target" % (want, want, want, got),
+                          key="%s|carry accumulated in another unit than it is handed out" % f.short)
+        elif late:
+            rep.violation("CY", late[0][0], f, "%s is increased after the loop that hands the pending columns out" % late[0][1],
+                          "the iteration can end with more than one column pending (the invariant %s < height no longer holds between cells): what is pending "
+                          "after the last cell is lost, up to two cell heights instead of one" % late[0][1], key="%s|carry increased after it is handed out" % f.short)
+        elif carried:
+            rep.holds("CY", x, f, "the stored width depends on %s, which lives across the iterations of the cell loop and is updated in it" % ", ".join(carried))
+        else:
+            rep.violation("CY", x, f, "the width is rounded cell by cell: nothing is carried from one cell to the next%s" % (" (%s is reset in every iteration)" % ", ".join(resets) if resets else ""),
+                          "each cell loses up to one column of its height to the rounding; without a carry the losses add up to the sum of the cell heights, "
+                          "not to one cell height as stated", key="%s|no rounding carry" % f.short)
+
+
 def check_non_narrowing(ctx, rep, f):
     width = CQ + "Circuit::cellWidth_"
+    # a per-cell expansion factor is a real number >= 1: converting it to an integer (explicitly or implicitly) before it is applied
+    # turns 1.9 into 1 - the predicted area, and with it the cap on the density, is computed for other factors than the ones applied
+    for x in walk(f.body):
+        if x.get("kind") in ("CStyleCastExpr", "CXXStaticCastExpr", "CXXFunctionalCastExpr", "ImplicitCastExpr") and x.get("castKind") == "FloatingToIntegral" or \
+                (x.get("kind") in ("CStyleCastExpr", "CXXStaticCastExpr", "CXXFunctionalCastExpr") and
+                 any(y.get("kind") == "ImplicitCastExpr" and y.get("castKind") == "FloatingToIntegral" for y in children(x))):
+            src = x
+            while src.get("kind") in ("CStyleCastExpr", "CXXStaticCastExpr", "CXXFunctionalCastExpr", "ImplicitCastExpr", "ParenExpr") and children(src):
+                src = children(src)[0]
+            sc = canon(src)
+            if sc[0] in ("index", "elem") and sc[1][0] == "var":
+                d = f.unit.by_id.get(sc[1][1])
+                t = qt(d) if d is not None else ""
+                if "vector<float" in t or "vector<double" in t:
+                    rep.violation("NN", x, f, "expansion factor %s converted to an integer" % pretty(sc)[:40],
+                                  "the fractional part of the factor is dropped where the expanded area is predicted, while the widths are multiplied by the "
+                                  "real factor: the density cap is checked against another expansion than the one applied",
+                                  key="%s|expansion factor truncated" % f.short)
     from .common import extremal_key_mismatches
     for node, k1, k2 in extremal_key_mismatches(f):
         rep.violation("NN", node, f, "%s() of the row that is extremal for %s" % (k2, k1),
